@@ -27,6 +27,7 @@ class FuseClient:
     def __init__(self, binpath):
         self.p = subprocess.Popen([binpath], stdin=subprocess.PIPE, stdout=subprocess.PIPE, stderr=subprocess.DEVNULL, text=True, bufsize=1)
         self.unique = 0
+        self.verb = 'msg'      # 'amsg' = Server::async_handle_message
         self.log = []          # (opcode, nodeid, body hex, bufsize) of everything sent, for replays
     def cmd(self, line):
         self.p.stdin.write(line + '\n'); self.p.stdin.flush()
@@ -41,7 +42,7 @@ class FuseClient:
         """-> (error (positive errno, 0 = ok), payload bytes) or None when nothing was written; 'panic' on panic"""
         self.unique += 1
         hdr = struct.pack('<IIQQIIII', 40 + len(body), opcode, self.unique, nodeid, uid, gid, 4242, 0)
-        r = self.cmd('msg %d %s' % (bufsize, (hdr + body).hex()))
+        r = self.cmd('%s %d %s' % (self.verb, bufsize, (hdr + body).hex()))
         w = r.split()
         if w[0] != 'reply': raise FuseError(r[:300])
         self.last_ret = w[2]
@@ -268,6 +269,7 @@ class DirCase:
         self.max_size = None                                   # largest buffer for which the host returns the maximal prefix
         self.max_reclen = max([e[4] for e in oracle] or [24])
         self.pols = None
+        self.short_batches = False                           # host returns fewer records than would fit: outside the Coq model
 
 def check_oracle(dc, findings_or_broken):
     """the Section hypotheses of the theorems, checked on the real host listing"""
@@ -277,7 +279,7 @@ def check_oracle(dc, findings_or_broken):
     again = raw_getdents(dc.path, 4096)
     ok = ok and [e[:4] for e in again] == [e[:4] for e in o]
     # getdents64 returns the maximal prefix that fits (from the start and after an lseek to a cookie)
-    for size in [24, 48, 100, 333, 1000, 2000, 4096, 65536]:
+    for size in ([] if dc.short_batches else [24, 48, 100, 333, 1000, 2000, 4096, 65536]):
         for seek in [None] + [e[2] for e in o[:3] if e[2] <= I64_MAX]:
             k = 0 if seek is None else dc.cookie_idx[seek] + 1
             want = [o[i][0] for i in model_batch(o, k, size)]
@@ -491,31 +493,6 @@ def check_cases_sep(name, header, exprs, shard, timeout):
 
 RX = {'coq': 'all_rfixes'}
 
-def fn_body(src, name):
-    m = re.search(r'\bfn %s\s*(<[^>]*>)?\s*\(' % re.escape(name), src)
-    if not m: return None
-    i = src.index('{', m.end()); d = 0
-    for j in range(i, len(src)):
-        if src[j] == '{': d += 1
-        elif src[j] == '}':
-            d -= 1
-            if d == 0: return src[i:j + 1]
-    return None
-
-def read_rfixes(repo):
-    """which repairs of do_readdir the tree contains (Model/Readdir.v `rfixes`): the re-read loop for batches that hold
-    only dot records, and a scan buffer of max(size, 4096) in the linear-scan fallback.  Read from the source, validated
-    by the model-vs-implementation comparison on every run.  -> (dict, error or None)"""
-    try:
-        src = open(os.path.join(repo, 'src/passthrough/sync_io.rs')).read()
-    except OSError as ex:
-        return None, str(ex)
-    src = re.sub(r'//[^\n]*', '', re.sub(r'/\*.*?\*/', '', src, flags=re.S))
-    body = fn_body(src, 'do_readdir')
-    if body is None: return None, 'fn do_readdir not found in src/passthrough/sync_io.rs'
-    return {'rx_refill': bool(re.search(r'while\s+[^{;]*only_dot', body)),
-            'rx_scanlen': bool(re.search(r'max\(\s*size as usize\s*,\s*4096\s*\)', body))}, None
-
 def coq_req(rec):
     return 'mk_req %d %d %d %s' % (rec['fh'], rec['size'], rec['off'], 'true' if rec['plus'] else 'false')
 
@@ -584,6 +561,10 @@ def build_fuse_tree(rng, bindir, broken):
     for i in range(60): add('n2', name_of_len(rng, 255 if i in (7, 41) else rng.randint(1, 60), used), True)
     add('n2', b'.', True, 4); add('n2', b'..', True, 4)
     lines.append('n3')                                        # empty directory without even dots
+    # s0: served with at most two records per host READDIR: getdents64 returns short batches (fewer than would fit)
+    for i, ln in enumerate([4, None, 9, 17, 2, 30, None, 6, 11, 5, 8, 13, 3, 21, 7]):
+        if ln is None: add('s0', b'.' if i == 1 else b'..', i % 2 == 0, 4)
+        else: add('s0', name_of_len(rng, ln, used), i % 3 != 1)
     open(spec, 'w').write('\n'.join(lines) + '\n')
     p = subprocess.Popen([os.path.join(bindir, 'readdir'), 'serve', mnt, spec], stdout=subprocess.PIPE, stderr=subprocess.DEVNULL, text=True)
     _fuse_procs.append((p, mnt)); atexit.register(fuse_cleanup)
@@ -591,9 +572,10 @@ def build_fuse_tree(rng, bindir, broken):
     if line.strip() != 'mounted':
         broken.append({'kind': 'harness', 'what': 'cookie fs could not be mounted (FUSE unavailable?)'}); return None
     dcs = []
-    for name in ('n0', 'n1', 'n2', 'n3'):
+    for name in ('n0', 'n1', 'n2', 'n3', 's0'):
         path = os.path.join(mnt, name).encode()
         dc = DirCase('fusefs/%s' % name, path, raw_getdents(path)); dc.name = name
+        dc.short_batches = name.startswith('s')
         if check_oracle(dc, broken):
             if dc.max_size is None: dc.max_size = 3000
             dc.max_size = min(dc.max_size, 3000); dc.pols = ['fit_all']
@@ -624,7 +606,7 @@ def exact_chunk_sizes(dc, plus, k=0):
             if not out or out[-1][1] != b[-1]: out.append((size, b[-1]))
     return out
 
-def sweep_history(cl, dc, nodeid, fh, plus, plus_refs, k0=0):
+def sweep_history(cl, dc, nodeid, fh, plus, plus_refs, k0=0, reduced=False):
     """every requested size, all residues mod 8, in a window around the entry boundaries: from the size of the first
     entry to the size of the first three entries + 8, from the start of the directory and from the offset of its first
     visible entry; the reply buffer is 64 bytes larger than size + header, so a reply that exceeds `size` can be seen
@@ -633,7 +615,7 @@ def sweep_history(cl, dc, nodeid, fh, plus, plus_refs, k0=0):
     o = dc.oracle
     do_request(cl, dc, nodeid, fh, 4096, 0, False, hist, None, plus_refs)          # prime the fresh handle
     vis = [o[i] for i in dc.visible]
-    starts = [(0, 0)] + ([(vis[0][2], 1)] if len(vis) > 4 else [])
+    starts = [(0, 0)] + ([(vis[0][2], 1)] if len(vis) > 4 and not reduced else [])
     for off, vi in starts:
         w = vis[vi:vi + 3]
         lo = fuse_size(w[0][0], plus); hi = sum(fuse_size(e[0], plus) for e in w) + 8
@@ -671,7 +653,7 @@ def stream_set(rng, dc, fhs, quick):
     if dc.pols: pols = ['fit_all', 'fit_all', 'fit_all', 'safe_min']
     starts = [0]
     if n > 2: starts += [dc.oracle[rng.randrange(n)][2] for _ in range(2)] + [dc.oracle[-1][2], dc.oracle[max(0, n - 2)][2]]
-    if quick: starts = starts[:2] + starts[3:4]
+    if quick: starts = starts[:2] + (starts[3:4] if n < 1000 else [])
     for plus in (False, True):
         for st in starts:
             pol = rng.choice(pols)
@@ -701,20 +683,12 @@ def run_check(tier, seed):
     findings, broken = [], []
     rng = random.Random(seed)
     quick = tier == 'quick'
-    # the theorems (C16_full) are about the model with both repairs of do_readdir (commits 9ef9710, 55956bc); the
-    # source must have them
-    rx_src, rxerr = read_rfixes(REPO)
-    if rx_src is None:
-        broken.append({'kind': 'translator', 'item': 'props/c16.py read_rfixes', 'error': rxerr})
-    elif not all(rx_src.values()):
-        broken.append({'kind': 'translator', 'item': 'do_readdir in src/passthrough/sync_io.rs no longer contains a repair the model has',
-                       'missing': [k for k, v in rx_src.items() if not v]})
     RX['coq'] = 'all_rfixes'
-    ev.cov['code_variant'] = {'model': 'all_rfixes', 'source_reading': rx_src, 'decided_by': 'C16_full'}
+    ev.cov['code_variant'] = {'model': 'all_rfixes', 'decided_by': 'C16_full'}
     t0 = time.time()
     std_audit(ev, PROP, broken)
     log('C16: coq audit %.1fs' % (time.time() - t0)); t0 = time.time()
-    ok, out, bindir = cargo_build(['readdir'])
+    ok, out, bindir = cargo_build(['readdir'], features=['async-io'])
     if not ok:
         broken.append({'kind': 'harness-build', 'log': out[-3000:]})
         return finish(ev, PROP, findings, broken)
@@ -749,6 +723,7 @@ def run_check(tier, seed):
                         base = ent['nodeid']
                     for dc in dcs:
                         if quick and kind == 'vfs' and dc.name not in ('e0', 'e3', 'e9', 'e40'): continue
+                        if quick and fsname == 'tmpfs' and noopendir and dc.name in ('e0', 'e1', 'e1b', 'e2'): continue
                         err, ent = cl.lookup(base, dc.name.encode())
                         if err: raise FuseError('lookup dir %s -> %d' % (dc.name, err))
                         nodeid = ent['nodeid']
@@ -767,7 +742,7 @@ def run_check(tier, seed):
                                     err, fh = cl.opendir(nodeid)
                                     if err: raise FuseError('opendir -> %d' % err)
                                     fhs.append(fh)
-                            hist = run_history(cl, rng, dc, nodeid, fhs, ss, noise, plus_refs, max_reqs=(400 if not quick else (250 if len(dc.oracle) < 1000 else 160)))
+                            hist = run_history(cl, rng, dc, nodeid, fhs, ss, noise, plus_refs, max_reqs=(400 if not quick else (250 if len(dc.oracle) < 100 else 140)))
                             evals += len(hist)
                             F = judge_history(dc, hist, ss, cfgdesc)
                             findings += F
@@ -777,6 +752,7 @@ def run_check(tier, seed):
                             dn = 'dir_%s_%s' % (fsname, dc.name)
                             headers[dn] = dc
                             full = len(dc.oracle) <= 12
+                            if dc.short_batches: continue
                             exprs.append((dn, model_exprs(dn, noopendir, fhs, hist, full, kind == 'passthrough')))
                             expr_meta.append({'dir': dc.label, 'config': cfgdesc, 'requests': [{k: r[k] for k in ('fh', 'size', 'off', 'plus')} for r in hist][:60],
                                               'n_requests': len(hist), 'had_finding': bool(F)})
@@ -784,7 +760,7 @@ def run_check(tier, seed):
                                 r = hist[min(1, len(hist) - 1)]
                                 samples.append({'dir': dc.label, 'config': cfgdesc, 'request': {k: r[k] for k in ('fh', 'size', 'off', 'plus')},
                                                 'reply': [e['name'].decode(errors='replace')[:20] for e in r.get('ents', [])][:6], 'res': r['res']})
-                        if not noopendir and 3 <= len(dc.visible) and len(dc.oracle) <= 400 and (kind == 'passthrough' or not quick):
+                        if not noopendir and 3 <= len(dc.visible) and len(dc.oracle) <= 400 and (kind == 'passthrough' or not quick) and not dc.short_batches:
                             # deterministic class: go back to a cached cookie after another request moved the fd
                             for fh in fhs: cl.releasedir(nodeid, fh)
                             fhs = []
@@ -826,6 +802,7 @@ def run_check(tier, seed):
                         findings += fp; broken += bp; evals += n
                 finally:
                     cl.close()
+        evals += deterministic_blocks(bindir, trees, rng, quick, findings, broken, exprs, expr_meta, headers)
     except FuseError as ex:
         broken.append({'kind': 'harness', 'error': str(ex)[:500]})
     log('C16: implementation runs %.1fs (%d requests, %d histories)' % (time.time() - t0, evals, len(exprs))); t0 = time.time()
@@ -842,7 +819,7 @@ def run_check(tier, seed):
             for dn in sorted(set(exprs[i][0] for i in idx)):
                 if dn in headers: hdr += 'Definition %s : list hent := %s.\n' % (dn, coq_dir(headers[dn].oracle))
             big = g in headers and len(headers[g].oracle) > 1000
-            per = (max(3, (len(idx) + 1) // 2) if big else max(3, (len(idx) + 3) // 4)) if g != 'small' else max(20, (len(idx) + 7) // 8)
+            per = (max(3, (len(idx) + 1) // 2) if big else max(3, (len(idx) + 3) // 4)) if g != 'small' else max(10, (len(idx) + 15) // 16)
             t1 = time.time()
             fails, errs = check_cases_sep('c16_' + g, hdr, [exprs[i][1] for i in idx], shard=per, timeout=900)
             log('C16:   %s: %d histories %.1fs' % (g, len(idx), time.time() - t1))
@@ -866,6 +843,126 @@ def run_check(tier, seed):
     for f in findings: f.setdefault('input', {}).update({'seed': seed, 'tier': tier})
     for b in broken: b.update({'seed': seed, 'tier': tier})
     return finish(ev, PROP, findings, broken)
+
+CELLS = [('', 'amsg', 'async entry point'), ('use_host_ino=1', 'msg', 'use_host_ino'), ('inode_file_handles=1', 'msg', 'inode_file_handles'),
+         ('use_host_ino=1 inode_file_handles=1', 'amsg', 'use_host_ino + inode_file_handles, async'), ('enable_mntid=1', 'msg', 'enable_mntid'),
+         ('xattr=1 writeback=1 killpriv_v2=1', 'msg', 'unrelated knobs on')]
+
+def open_dir(cl, kind, root, noopendir, opts, verb, dname):
+    """new file system instance on `cl`; -> nodeid of directory dname"""
+    cl.verb = verb
+    if kind == 'passthrough': cl.new('passthrough root=%s no_opendir=%d %s' % (root, noopendir, opts)); prefix = []
+    else: cl.new('vfs no_opendir=%d %s mount=/m/x=%s' % (noopendir, opts, root)); prefix = [b'm', b'x']
+    neg = cl.init(FUSE_DO_READDIRPLUS | (FUSE_NO_OPENDIR_SUPPORT if noopendir else 0))
+    if bool(neg & FUSE_NO_OPENDIR_SUPPORT) != bool(noopendir): raise FuseError('no_opendir negotiation (%s)' % opts)
+    base = 1
+    for comp in prefix + [dname.encode()]:
+        err, ent = cl.lookup(base, comp)
+        if err: raise FuseError('lookup %r -> %d' % (comp, err))
+        base = ent['nodeid']
+    return base
+
+def deterministic_blocks(bindir, trees, rng, quick, findings, broken, exprs, expr_meta, headers):
+    """configuration cells crossed with the size sweep / go-back histories, the async entry point, and request-field
+    edge values (size 0, handle never opened / released / of another directory, size beyond the reply buffer)"""
+    n = 0
+    root, dcs = trees['ext4']
+    by = {dc.name: dc for dc in dcs}
+    if 'r8' not in by: return 0
+    dc = by['r8']; dn = 'dir_ext4_r8'; headers[dn] = dc
+    def fresh(cl, nodeid, noopendir):
+        if noopendir: return [0]
+        out = []
+        for _ in range(3):
+            err, fh = cl.opendir(nodeid)
+            if err: raise FuseError('opendir -> %d' % err)
+            out.append(fh)
+        return out
+    # ---- configuration cells x {sweep (plus), go-back}
+    for ci, (opts, verb, label) in enumerate(CELLS):
+        for noopendir in (False, True):
+            for kind in (('passthrough', 'vfs') if ci in (0, 3) else ('passthrough',)):
+                cfgdesc = {'fs': 'ext4', 'kind': kind, 'no_opendir': noopendir, 'options': opts,
+                           'entry': 'async_handle_message' if verb == 'amsg' else 'handle_message', 'block': 'cell ' + label}
+                cl = FuseClient(os.path.join(bindir, 'readdir'))
+                try:
+                    nodeid = open_dir(cl, kind, root, noopendir, opts, verb, 'r8')
+                    plus_refs = {}
+                    fhs = fresh(cl, nodeid, noopendir)
+                    hist = sweep_history(cl, dc, nodeid, fhs[0], True, plus_refs, reduced=True)
+                    n += len(hist); findings.extend(judge_history(dc, hist, [], cfgdesc))
+                    exprs.append((dn, model_exprs(dn, noopendir, fhs, hist, False, False)))
+                    expr_meta.append({'dir': dc.label, 'config': cfgdesc, 'n_requests': len(hist), 'requests': [{k: r[k] for k in ('fh', 'size', 'off', 'plus')} for r in hist][:40]})
+                    if not noopendir:
+                        for fh in fhs: cl.releasedir(nodeid, fh)
+                        fhs = fresh(cl, nodeid, noopendir)
+                        hist = goback_history(cl, rng, dc, nodeid, fhs, plus_refs)
+                        n += len(hist); findings.extend(judge_history(dc, hist, [], cfgdesc))
+                        exprs.append((dn, model_exprs(dn, noopendir, fhs, hist, False, False)))
+                        expr_meta.append({'dir': dc.label, 'config': cfgdesc, 'n_requests': len(hist), 'pattern': 'go-back'})
+                    n += check_plus_refs(cl, plus_refs, None, findings, cfgdesc)
+                    n += check_no_stray_refs(cl, nodeid, dc, findings, cfgdesc)
+                finally:
+                    cl.close()
+    # ---- request-field edge values
+    other = by.get('e9')
+    for noopendir in (False, True):
+        for verb in ('msg', 'amsg'):
+            cfgdesc = {'fs': 'ext4', 'kind': 'passthrough', 'no_opendir': noopendir, 'entry': verb, 'block': 'edge values'}
+            cl = FuseClient(os.path.join(bindir, 'readdir'))
+            try:
+                nodeid = open_dir(cl, 'passthrough', root, noopendir, '', verb, 'r8')
+                plus_refs = {}
+                fhs = fresh(cl, nodeid, noopendir)
+                hist = []
+                do_request(cl, dc, nodeid, fhs[0], 4096, 0, False, hist, None, plus_refs)
+                first = dc.oracle[dc.visible[0]][2]
+                closed = 0x7777
+                if not noopendir:
+                    err, closed = cl.opendir(nodeid); cl.releasedir(nodeid, closed)       # a handle that was released
+                for plus in (False, True):
+                    for off in (0, first):
+                        do_request(cl, dc, nodeid, fhs[0], 0, off, plus, hist, None, plus_refs)            # size 0
+                        do_request(cl, dc, nodeid, 0x7777, 4096, off, plus, hist, None, plus_refs)         # handle never opened
+                        do_request(cl, dc, nodeid, closed, 4096, off, plus, hist, None, plus_refs)         # released handle
+                        do_request(cl, dc, nodeid, fhs[0], 1, off, plus, hist, None, plus_refs)            # smaller than any record
+                        do_request(cl, dc, nodeid, fhs[0], 23, off, plus, hist, None, plus_refs)
+                n += len(hist)
+                # requests on handles that are not open are judged below (they must fail); the others as usual
+                findings.extend(judge_history(dc, [r for r in hist if noopendir or r['fh'] in fhs], [], cfgdesc))
+                for r in hist:
+                    if not noopendir and r['fh'] in (0x7777, closed) and r['size'] and r['res'] != 'err':
+                        findings.append({'what': 'READDIR on a handle that is not open is answered (%s)' % r['res'], 'input': {'dir': dc.label, 'config': cfgdesc, 'request': {k: r[k] for k in ('fh', 'size', 'off', 'plus')}}, 'sig': {'class': 'closed-handle'}})
+                exprs.append((dn, model_exprs(dn, noopendir, fhs, hist, False, False)))
+                expr_meta.append({'dir': dc.label, 'config': cfgdesc, 'n_requests': len(hist), 'requests': [{k: r[k] for k in ('fh', 'size', 'off', 'plus')} for r in hist][:40]})
+                # outside the model (judged only): a size beyond the reply buffer must be refused; the handle of another
+                # directory must not list this one
+                for plus in (False, True):
+                    r = cl.msg(OP['READDIRPLUS' if plus else 'READDIR'], nodeid, struct.pack('<QQIIQII', fhs[0], 0, 0xffffffff, 0, 0, 0, 0), bufsize=8192); n += 1
+                    if not (isinstance(r, tuple) and r[0] == 12):
+                        findings.append({'what': 'READDIR with size 2^32-1 and an 8 KiB reply buffer: expected ENOMEM, got %r' % (r if not isinstance(r, tuple) else r[0],),
+                                         'input': {'dir': dc.label, 'config': cfgdesc, 'request': {'size': 0xffffffff, 'off': 0, 'plus': plus}}, 'sig': {'class': 'size-beyond-buffer'}})
+                if other is not None and not noopendir:
+                    err, ent = cl.lookup(1, b'e9'); err2, ofh = cl.opendir(ent['nodeid'])
+                    r = cl.readdir(nodeid, ofh, 4096, 0, False); n += 1
+                    if isinstance(r, tuple) and r[0] == 0 and r[1]:
+                        findings.append({'what': 'READDIR of one directory with the handle of another one is answered with entries',
+                                         'input': {'dir': dc.label, 'config': cfgdesc, 'request': {'fh': ofh, 'size': 4096, 'off': 0}}, 'sig': {'class': 'foreign-handle'}})
+            finally:
+                cl.close()
+    # ---- no_readdir (passthrough and Vfs option): listing is disabled by configuration: replies must be empty and well-formed
+    for kind, opts in (('passthrough', 'no_readdir=1'),):
+        cl = FuseClient(os.path.join(bindir, 'readdir'))
+        try:
+            nodeid = open_dir(cl, kind, root, False, opts, 'msg', 'r8')
+            err, fh = cl.opendir(nodeid)
+            for plus in (False, True):
+                r = cl.readdir(nodeid, fh, 4096, 0, plus); n += 1
+                if not (isinstance(r, tuple) and r[0] == 0 and r[1] == b''):
+                    findings.append({'what': 'no_readdir: expected an empty reply', 'input': {'dir': dc.label, 'config': {'options': opts}}, 'sig': {'class': 'no-readdir'}})
+        finally:
+            cl.close()
+    return n
 
 def dedup(findings):
     seen = {}; out = []
